@@ -3,6 +3,8 @@ package checks
 import (
 	"time"
 
+	_ "github.com/glebziz/fs_db/verifh/grpch"
+
 	"github.com/glebziz/fs_db/verifh/seq"
 )
 
@@ -15,11 +17,13 @@ func init() {
 func c13(tier string) int {
 	plans := []seq.Plan{
 		{Family: "late", Params: "slots=2,levels=RU.RC.RR", From: 1, To: 4},
+		{Family: "grpc-late", Params: "slots=1,levels=RU.RC", From: 1, To: 3},
 	}
 	if tier == "thorough" {
 		plans = []seq.Plan{
 			{Family: "late", Params: "slots=2", From: 1, To: 5},
 			{Family: "late", Params: "slots=3,levels=RU.RR,unknown=0", From: 1, To: 6},
+			{Family: "grpc-late", Params: "slots=2", From: 1, To: 4},
 		}
 	}
 	return seqCheck("C13", tier, 90*time.Second, 10*time.Minute, plans,
